@@ -178,7 +178,7 @@ func (t *Teamserver) DispatchEvent(pk packager.Package) {
 									ClientID = ""
 									t.Clients.Range(func(key, value any) bool {
 										client := value.(*Client)
-										if client.Username == pk.Head.User {
+										if client.Authenticated && client.Username == pk.Head.User {
 											ClientID = client.ClientID
 											return false
 										}
@@ -409,7 +409,7 @@ func (t *Teamserver) DispatchEvent(pk packager.Package) {
 							t.Clients.Range(func(key, value any) bool {
 								id := key.(string)
 								client := value.(*Client)
-								if client.Username == pk.Head.User {
+								if client.Authenticated && client.Username == pk.Head.User {
 									err := t.SendEvent(id, events.Listener.ListenerError(pk.Head.User, pk.Body.Info["Name"].(string), errors.New("proxy type not specified")))
 									if err != nil {
 										logger.Error("Failed to send Event: " + err.Error())
@@ -426,7 +426,7 @@ func (t *Teamserver) DispatchEvent(pk packager.Package) {
 							t.Clients.Range(func(key, value any) bool {
 								id := key.(string)
 								client := value.(*Client)
-								if client.Username == pk.Head.User {
+								if client.Authenticated && client.Username == pk.Head.User {
 									err := t.SendEvent(id, events.Listener.ListenerError(pk.Head.User, pk.Body.Info["Name"].(string), errors.New("proxy host not specified")))
 									if err != nil {
 										logger.Error("Failed to send Event: " + err.Error())
@@ -443,7 +443,7 @@ func (t *Teamserver) DispatchEvent(pk packager.Package) {
 							t.Clients.Range(func(key, value any) bool {
 								id := key.(string)
 								client := value.(*Client)
-								if client.Username == pk.Head.User {
+								if client.Authenticated && client.Username == pk.Head.User {
 									err := t.SendEvent(id, events.Listener.ListenerError(pk.Head.User, pk.Body.Info["Name"].(string), errors.New("proxy port not specified")))
 									if err != nil {
 										logger.Error("Failed to send Event: " + err.Error())
@@ -461,7 +461,7 @@ func (t *Teamserver) DispatchEvent(pk packager.Package) {
 							t.Clients.Range(func(key, value any) bool {
 								id := key.(string)
 								client := value.(*Client)
-								if client.Username == pk.Head.User {
+								if client.Authenticated && client.Username == pk.Head.User {
 									err := t.SendEvent(id, events.Listener.ListenerError(pk.Head.User, pk.Body.Info["Name"].(string), errors.New("proxy username not specified")))
 									if err != nil {
 										logger.Error("Failed to send Event: " + err.Error())
@@ -479,7 +479,7 @@ func (t *Teamserver) DispatchEvent(pk packager.Package) {
 							t.Clients.Range(func(key, value any) bool {
 								id := key.(string)
 								client := value.(*Client)
-								if client.Username == pk.Head.User {
+								if client.Authenticated && client.Username == pk.Head.User {
 									err := t.SendEvent(id, events.Listener.ListenerError(pk.Head.User, pk.Body.Info["Name"].(string), errors.New("proxy password not specified")))
 									if err != nil {
 										logger.Error("Failed to send Event: " + err.Error())
@@ -501,7 +501,7 @@ func (t *Teamserver) DispatchEvent(pk packager.Package) {
 					t.Clients.Range(func(key, value any) bool {
 						id := key.(string)
 						client := value.(*Client)
-						if client.Username == pk.Head.User {
+						if client.Authenticated && client.Username == pk.Head.User {
 							err := t.SendEvent(id, events.Listener.ListenerError(pk.Head.User, pk.Body.Info["Name"].(string), err))
 							if err != nil {
 								logger.Error("Failed to send Event: " + err.Error())
@@ -534,7 +534,7 @@ func (t *Teamserver) DispatchEvent(pk packager.Package) {
 					t.Clients.Range(func(key, value any) bool {
 						id := key.(string)
 						client := value.(*Client)
-						if client.Username == pk.Head.User {
+						if client.Authenticated && client.Username == pk.Head.User {
 							err := t.SendEvent(id, events.Listener.ListenerError(pk.Head.User, pk.Body.Info["Name"].(string), err))
 							if err != nil {
 								logger.Error("Failed to send Event: " + err.Error())
@@ -568,7 +568,7 @@ func (t *Teamserver) DispatchEvent(pk packager.Package) {
 					t.Clients.Range(func(key, value any) bool {
 						id := key.(string)
 						client := value.(*Client)
-						if client.Username == pk.Head.User {
+						if client.Authenticated && client.Username == pk.Head.User {
 							err := t.SendEvent(id, events.Listener.ListenerError(pk.Head.User, pk.Body.Info["Name"].(string), err))
 							if err != nil {
 								logger.Error("Failed to send Event: " + err.Error())
@@ -707,7 +707,7 @@ func (t *Teamserver) DispatchEvent(pk packager.Package) {
 							t.Clients.Range(func(key, value any) bool {
 								id := key.(string)
 								client := value.(*Client)
-								if client.Username == pk.Head.User {
+								if client.Authenticated && client.Username == pk.Head.User {
 									err := t.SendEvent(id, events.Listener.ListenerError(pk.Head.User, pk.Body.Info["Name"].(string), errors.New("proxy type not specified")))
 									if err != nil {
 										logger.Error("Failed to send Event: " + err.Error())
@@ -724,7 +724,7 @@ func (t *Teamserver) DispatchEvent(pk packager.Package) {
 							t.Clients.Range(func(key, value any) bool {
 								id := key.(string)
 								client := value.(*Client)
-								if client.Username == pk.Head.User {
+								if client.Authenticated && client.Username == pk.Head.User {
 									err := t.SendEvent(id, events.Listener.ListenerError(pk.Head.User, pk.Body.Info["Name"].(string), errors.New("proxy host not specified")))
 									if err != nil {
 										logger.Error("Failed to send Event: " + err.Error())
@@ -741,7 +741,7 @@ func (t *Teamserver) DispatchEvent(pk packager.Package) {
 							t.Clients.Range(func(key, value any) bool {
 								id := key.(string)
 								client := value.(*Client)
-								if client.Username == pk.Head.User {
+								if client.Authenticated && client.Username == pk.Head.User {
 									err := t.SendEvent(id, events.Listener.ListenerError(pk.Head.User, pk.Body.Info["Name"].(string), errors.New("proxy port not specified")))
 									if err != nil {
 										logger.Error("Failed to send Event: " + err.Error())
@@ -759,7 +759,7 @@ func (t *Teamserver) DispatchEvent(pk packager.Package) {
 							t.Clients.Range(func(key, value any) bool {
 								id := key.(string)
 								client := value.(*Client)
-								if client.Username == pk.Head.User {
+								if client.Authenticated && client.Username == pk.Head.User {
 									err := t.SendEvent(id, events.Listener.ListenerError(pk.Head.User, pk.Body.Info["Name"].(string), errors.New("proxy username not specified")))
 									if err != nil {
 										logger.Error("Failed to send Event: " + err.Error())
@@ -777,7 +777,7 @@ func (t *Teamserver) DispatchEvent(pk packager.Package) {
 							t.Clients.Range(func(key, value any) bool {
 								id := key.(string)
 								client := value.(*Client)
-								if client.Username == pk.Head.User {
+								if client.Authenticated && client.Username == pk.Head.User {
 									err := t.SendEvent(id, events.Listener.ListenerError(pk.Head.User, pk.Body.Info["Name"].(string), errors.New("proxy password not specified")))
 									if err != nil {
 										logger.Error("Failed to send Event: " + err.Error())
@@ -825,7 +825,7 @@ func (t *Teamserver) DispatchEvent(pk packager.Package) {
 
 			t.Clients.Range(func(key, value any) bool {
 				Client := value.(*Client)
-				if Client.Username == pk.Head.User {
+				if Client.Authenticated && Client.Username == pk.Head.User {
 					ClientID = Client.ClientID
 					return false
 				}
